@@ -52,7 +52,8 @@ def g_size(rng, n):
 
 
 def g_ext(rng, size_len, short):
-    """chunk extension; `short` keeps size+ext below 7 bytes (premise bd_res_line_ok of the response-side theorem)"""
+    """chunk extension; `short` keeps size+ext below 7 bytes (the former premise bd_res_line_ok of the response-side theorem:
+    the look-ahead of RES_BODY_CHUNKED_LENGTH; since the repair of K1 long extensions are inside the proved domain too)"""
     if rng.random() < 0.7:
         return b""
     if short:
@@ -142,7 +143,7 @@ def g_response(rng, ident, may_close=False):
     mlen = 0
     lines = []
     if framing == "chunked":
-        enc, mlen = enc_chunked(rng, body, short_ext=(rng.random() < 0.93), lines=lines)
+        enc, mlen = enc_chunked(rng, body, short_ext=(rng.random() < 0.5), lines=lines)
         wire += enc
     elif framing in ("cl", "close"):
         wire += body
@@ -261,7 +262,7 @@ def in_premises(truth, tab):
     for m in truth["res"] or []:
         for l, n in m.get("lines", []):
             ok = tab.get(l)
-            if not ok or not ok[0] or ok[2] != n or not ok[3]:
+            if not ok or not ok[0] or ok[2] != n:          # bd_res_line_ok (ok[3]) is no longer a premise: K1 is repaired
                 return False
     return True
 
@@ -530,8 +531,11 @@ def run_known(ctx):
     w = connp_props.witnesses()
     for kf in vf.known_for(PROP, "fixed"):
         sig = kf["signature"]
-        names = sig.get("witnesses", [])
-        cases = [w[n] for n in names if n in w]
+        names = [n for n in sig.get("witnesses", []) if n in w]
+        cases = [w[n] for n in names]
+        for n, c in sorted(sig.get("cases", {}).items()):      # witnesses carried by the finding itself
+            names.append(n)
+            cases.append(c)
         if not cases:
             continue
         before = ctx.cov["evaluations"]
@@ -547,6 +551,10 @@ def run_known(ctx):
             for k, v in want.items():
                 if sconnp.field(d, k) != str(v):
                     errs.append("%s=%s, expected %s" % (k, sconnp.field(d, k), v))
+            if sig.get("delivered") is not None:
+                got = b"".join(e[3] for e in parse_events(o)[0] if e[1] in (5, 14) and e[3])
+                if got.hex() != sig["delivered"]:
+                    errs.append("delivered body %s, expected %s" % (got.hex() or "-", sig["delivered"]))
             errs += accounting_errors(c, o)
             if errs:
                 vf.violation(ctx, "regression-%s-%s" % (kf["id"], n.replace(".", "-")), {"kind": "fixed-finding-regressed", "finding": kf["id"], "witness": n, "case": c,
@@ -629,8 +637,8 @@ def check(ctx):
                 classes["exchange-f1-hazard"] = classes.get("exchange-f1-hazard", 0) + 1
                 continue
             if not truth.get("prem"):
-                # outside the extracted premises (response size line on which the look-ahead can fire: K1 territory);
-                # correspondence still compares model and library on it
+                # outside the extracted premises (a size line that does not parse to the length of its data: the generator
+                # does not produce any); correspondence still compares model and library on it
                 classes["exchange-outside-premises"] = classes.get("exchange-outside-premises", 0) + 1
                 continue
             errs = exchange_errors(o, truth)
@@ -698,8 +706,8 @@ def check(ctx):
     return vf.standard_epilogue(ctx, pr, "make Props/Properties_C06.vo (coqc 8.16.1) + ./check C06", rule,
                                 ["theorems are stated on the body-state functions of the model iterated over the TCP chunks (state-function level), callbacks answering OK; "
                                  "the whole-connection statement (cp_run) is tied by the ground-truth oracle on the implementation",
-                                 "response side: chunk-size lines satisfy the EXTRACTED premise bd_res_line_ok (data_probe_chunk_length cannot fire inside the line: known finding K1 otherwise); "
-                                 "exchanges outside it or with the C03/F1 LF-CR hazard are compared with the model but not judged by the oracle",
+                                 "chunk-size lines satisfy the EXTRACTED premises (bd_is_line, value == length of the data); since the repair of K1 (look-ahead over out_buf ++ current segment) "
+                                 "no premise about extensions / cut positions remains on the response side; exchanges with the C03/F1 LF-CR hazard are compared with the model but not judged by the oracle",
                                  "decompression off (as in the S-connp configuration); C07 covers content codings"])
 
 
